@@ -749,6 +749,10 @@ def scenario_for(k, batch_seed, tier, repo_root, opts=None):
     return scn
 
 
+def generate_from_rng(rng, repo_root, tier="thorough", opts=None):
+    return generate(rng, repo_root, "B" if rng.random() < 0.4 else "A", opts)
+
+
 class SweepResult:
     def __init__(self, base, runs, violations):
         self.base, self.runs, self.violations = base, runs, violations
